@@ -462,7 +462,7 @@ func verifC16RunBatch(t *testing.T, rec *kit.Rec, rng *rand.Rand, bi, n int) {
 		rec.Count("evaluations", 1)
 		rec.Count("map_checks", 1)
 	}
-	l.Close()
+	verifC16Retire(l)
 
 	est, cancels := 0, 0
 	for _, s := range b.sess {
